@@ -157,7 +157,7 @@ func runReal(g *realGrid, lp lpoly, ids []int, reqIDs []int, c snap.Config, step
 			rec.Grid = g.name
 			rec.Poly = lp
 			rec.Keep, rec.Ig, rec.Rev, rec.Exact, rec.W = c.KeepPointsAndLines, c.IgnoreOutsideGrid, c.ReverseWindingOrder, true, 2*kmax
-			rec.Res, rec.Lv, rec.Pts, rec.IDs = []resRec{}, []lvRec{}, []realPt{}, ids
+			rec.Res, rec.Lv, rec.Pts, rec.IDs, rec.Steps = []resRec{}, []lvRec{}, []realPt{}, ids, []stepRec{}
 			gp := make(geom.Polygon, len(lp))
 			for r, ring := range lp {
 				gp[r] = make([][2]float64, len(ring))
